@@ -6,10 +6,43 @@ import json
 import os
 
 from props import filecamp
+from translator import schema
 from vlib import common as C
 
 LEAN_MODULES = ["NiflyVerif.Props.C01"]
-ASSUMPTIONS = ["BSGeometry cannot be synthesised (DESIGN.md §8 #12); it is exercised through the Starfield sample file only"]
+TRUSTED_EXTRA = ["translator/schema.py + clang-14 AST + a g++ size/enum probe: the wire schema of every in-fragment (block type, version); "
+                 "validated on every run by decoding the library's own blocks with it (consumes exactly the block, re-encodes to the "
+                 "same bytes, same field boundaries as the NIFLY_VERIF transfer trace)"]
+ASSUMPTIONS = ["wire schemas: read-side post-processing and write-side normalisations that transfer nothing (listed under "
+               "schema_ignored_normalisers), the dropping of empty entries of reference arrays and NUL-truncation of strings are not part "
+               "of the schema; they are the identity on bytes the library itself wrote, which is what the validation run decodes",
+               "half floats and packed normals are modelled as their wire bits",
+               "BSGeometry cannot be synthesised (DESIGN.md §8 #12); it is exercised through the Starfield sample file only"]
+
+
+def translate(ctx):
+    ctx.schemas = schema.generate()
+
+
+def version_name(path):
+    """harness version name of a file from its header (for picking the specialised schema)"""
+    import struct
+    d = open(path, "rb").read(200)
+    p = d.index(b"\n") + 1
+    ver, = struct.unpack_from("<I", d, p)
+    user, = struct.unpack_from("<I", d, p + 5) if ver >= 0x0A000108 else (0,)
+    stream = 0
+    if ver == 0x14020007 or user >= 3:
+        stream, = struct.unpack_from("<I", d, p + 13)
+    if ver == 0x14000005:
+        return "ob"
+    if ver == 0x14000004:
+        return "ob20_4"
+    if ver == 0x0A020000:
+        return "ob10"
+    if user == 11:
+        return "fo3"
+    return {83: "sk", 100: "sse", 130: "fo4", 132: "fo4_132", 139: "fo4_139", 155: "fo76", 172: "sf", 173: "sf173"}.get(stream)
 
 
 def run(ctx):
@@ -39,10 +72,14 @@ def run(ctx):
         out = C.run_lines_parallel(ctx.harness, lines)
         cmp_lines, cmp_meta = [], []
         bad, loaded = [], 0
+        sch_jobs = []
         for (label, f, mode, b), o in zip(meta, out):
             st = o.split(" ")
             if st[0].startswith("load-rc"):
-                continue            # not a file the library accepts
+                if not f.startswith(os.path.join(C.REPO, "tests")):
+                    # generated and constructed inputs were written by the library itself a moment ago
+                    bad.append((label, f, mode, f"the library cannot load a file it has just written ({st[0]})"))
+                continue            # a sample the library does not accept
             if st[0] not in ("ok", "ok+unknown"):
                 bad.append((label, f, mode, f"load/save script failed: {o}"))
                 continue
@@ -53,6 +90,7 @@ def run(ctx):
             if mode == "raw":
                 cmp_lines.append(f"bytes.eq {b}.s1 {b}.s2")
                 cmp_meta.append((label, f, mode, b))
+                sch_jobs.append((label, f, b))
                 cmp_lines.append(f"c07.walk {b}.s1")
                 cmp_meta.append((label, f, "walk", b))
             else:
@@ -68,6 +106,39 @@ def run(ctx):
             elif not o.startswith("same"):
                 bad.append((label, f, mode, ("raw save is not a fixed point: save(load(S1)) != S1: " if mode == "raw"
                                               else "default save did not converge within two rounds (D2 != D3): ") + o))
+        # schema correspondence: every block of every S1 whose (type, version) has a generated schema is decoded by the Lean
+        # reader with that schema; it must consume exactly the block, re-encode to the same bytes and cut the block into
+        # the same fields as the library's own transfer trace
+        sch_bad, decoded, noschema, validated = [], 0, 0, set()
+        if ctx.driver and sch_jobs:
+            tr_out = C.run_lines_parallel(ctx.harness, [f"fs load:{b}.s1 save:{b}.t:raw:tracefull" for _, _, b in sch_jobs])
+            wl, wm = [], []
+            for (label, f, b), o in zip(sch_jobs, tr_out):
+                vn = version_name(b + ".t") if o == "ok ok" or o.startswith("ok") and o.endswith("ok") else None
+                if vn:
+                    wl.append(f"c01.schema {b}.t {b}.t.tracefull {vn}")
+                    wm.append((label, f, vn))
+            import re
+            for (label, f, vn), o in zip(wm, C.run_lines_parallel(ctx.driver, wl)):
+                m = re.search(r"decoded=(\d+) noschema=(\d+)", o)
+                if m:
+                    decoded += int(m.group(1))
+                    noschema += int(m.group(2))
+                for t in o.split("types=")[-1].split(","):
+                    if t:
+                        validated.add((t, vn))
+                if not o.startswith("ok"):
+                    sch_bad.append((label, f, vn, o[:400]))
+        for j, (label, f, vn, why) in enumerate(sch_bad[:2]):
+            keep = os.path.join(C.REPLAYS, f"C01-schema-input-{j}.nif")
+            os.makedirs(C.REPLAYS, exist_ok=True)
+            if os.path.exists(f):
+                import shutil
+                shutil.copy(f, keep)
+            res.violation(f"correspondence-{j}", dict(
+                what="a generated wire schema does not describe the block the library wrote: " + why, input=label, path=keep, version=vn,
+                broken="correspondence translator/schema.py + Wire/Schema.lean rd/wr vs the library's Sync on real blocks"),
+                no_input=not bad)
         for j, (label, f, mode, why) in enumerate(bad[:3]):
             keep = os.path.join(C.REPLAYS, f"C01-input-{j}.nif")
             os.makedirs(C.REPLAYS, exist_ok=True)
@@ -83,6 +154,12 @@ def run(ctx):
                  "versions × seeds; each input is round-tripped twice raw (S1 == S2) and three times with the default "
                  "sorting/pruning save (D2 == D3); every S1 is decoded and walked by the Lean header reader. non-trivial = "
                  "(input, mode) pairs the library accepted",
+            schema_pairs_in_fragment=len(ctx.schemas["index"]) if hasattr(ctx, "schemas") else None,
+            schema_distinct=len(ctx.schemas["schemas"]) if hasattr(ctx, "schemas") else None,
+            schema_opaque_types=sorted(k for k in ctx.schemas["opaque"] if "@" not in k) if hasattr(ctx, "schemas") else None,
+            schema_ignored_normalisers=ctx.schemas.get("normalisers") if hasattr(ctx, "schemas") else None,
+            schema_blocks_decoded=decoded, schema_blocks_without_schema=noschema, schema_pairs_validated=len(validated),
+            schema_failures=len(sch_bad),
             inputs=len(inputs), synthesis_failures=[(l, o) for l, p, o in synth_bad][:20], oracle_failures=len(bad),
             samples=[lines[i][:200] for i in range(0, len(lines), max(1, len(lines) // 5))][:5])
     finally:
